@@ -2964,6 +2964,15 @@ where
         K::Scalar: CoordinateScalar,
     {
         let mut stats = InsertionStatistics::default();
+
+        // Refuse non-finite coordinates before the vertex can enter storage: during the bootstrap
+        // phase no geometric predicate runs that would reject them later.
+        vertex.point().validate().map_err(|source| {
+            InsertionError::Construction(TriangulationConstructionError::FailedToAddVertex {
+                message: format!("invalid vertex coordinates: {source}"),
+            })
+        })?;
+
         let original_coords = *vertex.point().coords();
         let original_uuid = vertex.uuid();
         let mut current_vertex = vertex;
